@@ -154,6 +154,8 @@ structure TlsWorld (ω : Type) extends World ω where
   sslIsInitFinished : M ω Int
   /-- `SSL_pending(ssl)` -/
   sslPending : M ω Int
+  /-- `SSL_shutdown(ssl)` -/
+  sslShutdown : M ω Int
   /-- `SslError(code)`: the `std::error_code` of an OpenSSL error -/
   sslError : Int → M ω Int
 
